@@ -24,6 +24,36 @@ func register(prop string, fn ruleFn, explanation, ruleText string, assume ...st
 	assumptions[prop] = assume
 }
 
+// include runs the rule set of another property as shared clauses of the
+// current one: every obligation of `from` is a necessary condition of the
+// including property too (stated in its explanation); obligations are
+// re-labelled so that keys stay unique per property.
+func include(w *World, r *Report, from string) {
+	fn, ok := registry[from]
+	if !ok {
+		r.undecided("shared", "rules of "+from, "-", "not registered")
+		return
+	}
+	if note := " Shared clauses: every obligation of " + from + " is also a necessary condition of this property and is evaluated here under the label 'shared " + from + ".…'."; !strings.Contains(r.Explain, note) {
+		r.Explain += note
+	}
+	r2 := newReport(r.Prop)
+	r2.cfg = r.cfg
+	fn(w, r2)
+	for _, o := range r2.Obls {
+		o.Rule = "shared " + o.Rule
+		o.Key = "shared " + o.Key
+		r.Obls = append(r.Obls, o)
+	}
+	for _, fc := range r2.Floors {
+		r.floor("shared "+fc.Name, fc.Got, fc.Min)
+	}
+	for f := range r2.Funcs {
+		r.Funcs[f] = true
+	}
+	r.CallSites += r2.CallSites
+}
+
 func configsFor(tier string) []Config {
 	if tier == "thorough" {
 		return []Config{
